@@ -2,6 +2,7 @@
    Statements only; each closed by [exact] of a lemma proved in Msg/PresenceP.v. *)
 From Coq Require Import List NArith Bool.
 From PB Require Import Base.PBytes Wire.WireModel Msg.PresenceModel Msg.PresenceP Msg.OneofModel Msg.OneofP.
+From PB Require Import Msg.MsgSchema Msg.MsgValue Msg.MsgEnc Msg.MsgDec Msg.MsgValid Msg.MsgExample Msg.PresenceCodec Msg.PresenceCodecP.
 Import ListNotations.
 Open Scope N_scope.
 
@@ -161,8 +162,9 @@ Theorem C11_has_oneof_member_iff_selected :
 Proof. exact whas_iff_which. Qed.
 Print Assumptions C11_has_oneof_member_iff_selected.
 
-(** round trips, against the minimal single-field varint codec of PresenceModel.v only
-    (the full message codec is C03); hence _partial *)
+(** round trips, against the minimal single-field varint codec of PresenceModel.v only; kept for
+    the tie to the op-history model.  The statements over the full message codec of C03, for
+    every schema table, field kind and cardinality, follow below. *)
 Theorem C11_implicit_zero_not_encoded_partial :
   forall num st,
   (exists n, st = StVal (PVInt n)) \/ (exists b, st = StVal (PVBool b)) ->
@@ -182,3 +184,125 @@ Print Assumptions C11_explicit_survives_roundtrip_partial.
 Example C11_explicit_survives_roundtrip_nonvacuous :
   dec_explicit 5 (enc_explicit 5 (Some 0)) = Ok (Some 0) /\ enc_explicit 5 (Some 0) <> [].
 Proof. split; [reflexivity|discriminate]. Qed.
+
+(* ------------------------------------------------------------------------------------------ *)
+(** * C11 over the full binary codec of C03 (Msg/MsgSchema, MsgValue, MsgEnc, MsgDec, MsgValid)
+
+    [pc_has S tid v f] is Has of field f on a canonical message value v of type tid, defined by
+    the presence rule of the cardinality class of f in the schema table: explicit presence
+    (COpt, CReq: optional / required / oneof members / messages) -- a value is stored, whatever it
+    is; implicit presence (CImp) -- the stored scalar is non-zero; repeated and map -- non-empty.
+    All theorems are for every schema table S (recursive types, all 16 scalar kinds, enum,
+    message, group, packed and expanded lists, maps, oneofs, extensions), both decoder paths and
+    every recursion limit. *)
+
+(** On canonical values Has is "the value has an entry for the field": an implicit-presence
+    zero is never stored, an explicit-presence default is. *)
+Theorem C11_has_canonical_iff_present :
+  forall slow S dep tid v num,
+  msg_typed slow S dep tid v = true -> pc_has S tid v num = pc_present v num.
+Proof. exact pc_has_present. Qed.
+Print Assumptions C11_has_canonical_iff_present.
+
+(** The wire-tree scanner of Wire/WireModel.v ([parse_fields], protowire.ConsumeField in a loop)
+    reads the encoding of a canonical value as: the wire fields [pc_wire] of the known part,
+    followed by exactly the wire fields of the preserved unknown bytes; and the field numbers of
+    the known part are exactly the populated fields.  Both directions of the property text:
+    an unpopulated field (in particular an implicit-presence zero) is not encoded, every
+    populated field (in particular an explicit-presence field holding its default) is.
+    [pc_groups_scan]: top-level group values pass the scanner within its nesting budget -- part
+    of msg_valid on the reflection path, the exclusion of finding FB3 on the table-driven path,
+    vacuous for message types without group fields (three theorems below). *)
+Theorem C11_encoded_fields_are_populated_fields :
+  forall slow S limit tid v,
+  msg_valid slow S limit tid v = true -> pc_groups_scan S tid v = true ->
+  exists wu,
+    parse_fields (x00 :: pc_unknown v) default_dep (pc_unknown v) [] = Ok wu /\
+    parse_fields (x00 :: msg_encode S tid v) default_dep (msg_encode S tid v) [] = Ok (pc_wire S tid v ++ wu) /\
+    forall f, In f (map fst (pc_wire S tid v)) <-> pc_has S tid v f = true.
+Proof. exact pc_encode_fields. Qed.
+Print Assumptions C11_encoded_fields_are_populated_fields.
+
+Theorem C11_implicit_zero_not_encoded :
+  forall slow S limit tid v f,
+  msg_valid slow S limit tid v = true -> pc_groups_scan S tid v = true ->
+  pc_has S tid v f = false -> ~ In f (map fst (pc_wire S tid v)).
+Proof. exact pc_unpopulated_not_encoded. Qed.
+Print Assumptions C11_implicit_zero_not_encoded.
+
+Theorem C11_populated_field_encoded :
+  forall slow S limit tid v f,
+  msg_valid slow S limit tid v = true -> pc_groups_scan S tid v = true ->
+  pc_has S tid v f = true -> In f (map fst (pc_wire S tid v)).
+Proof. exact pc_populated_encoded. Qed.
+Print Assumptions C11_populated_field_encoded.
+
+(** without unknown bytes: the scanner output names exactly the populated fields *)
+Theorem C11_encoded_fields_no_unknown :
+  forall slow S limit tid fs,
+  msg_valid slow S limit tid (VMsg fs []) = true -> pc_groups_scan S tid (VMsg fs []) = true ->
+  exists wfs, parse_fields (x00 :: msg_encode S tid (VMsg fs [])) default_dep (msg_encode S tid (VMsg fs [])) [] = Ok wfs /\
+    forall f, In f (map fst wfs) <-> pc_has S tid (VMsg fs []) f = true.
+Proof. exact pc_encode_fields_no_unknown. Qed.
+Print Assumptions C11_encoded_fields_no_unknown.
+
+(** for an implicit-presence field Has is the non-zero test of the stored scalar *)
+Theorem C11_implicit_has_iff_nonzero_canonical :
+  forall slow S dep tid fs unk num fd,
+  msg_typed slow S dep tid (VMsg fs unk) = true ->
+  msg_find_field (nth tid S []) num = Some fd -> f_card fd = CImp ->
+  pc_has S tid (VMsg fs unk) num =
+  match msg_fget fs num with [VS s] => negb (msg_scalar_is_zero s) | _ => false end.
+Proof. exact pc_implicit_has_iff_nonzero. Qed.
+Print Assumptions C11_implicit_has_iff_nonzero_canonical.
+
+(** the scan condition *)
+Theorem C11_scan_condition_reflection_path :
+  forall S limit tid v, msg_valid true S limit tid v = true -> pc_groups_scan S tid v = true.
+Proof. exact pc_valid_slow_scans. Qed.
+Print Assumptions C11_scan_condition_reflection_path.
+Theorem C11_scan_condition_no_groups :
+  forall (S : schema) tid v,
+  (forall fd, In fd (nth tid S ([] : mdesc)) -> match f_kind fd with KGrp _ => False | _ => True end) ->
+  pc_groups_scan S tid v = true.
+Proof. exact pc_no_groups_scans. Qed.
+Print Assumptions C11_scan_condition_no_groups.
+
+(** explicit_survives_roundtrip: Has of every field -- explicit-presence fields holding their
+    default included -- is the same after Unmarshal(Marshal(v)) (from C03_roundtrip) *)
+Theorem C11_explicit_survives_roundtrip :
+  forall slow S limit tid v,
+  msg_valid slow S limit tid v = true ->
+  exists v', msg_decode slow S limit tid (msg_encode S tid v) = DOk v' /\
+             forall f, pc_has S tid v' f = pc_has S tid v f.
+Proof. exact pc_has_roundtrip. Qed.
+Print Assumptions C11_explicit_survives_roundtrip.
+
+(* non-vacuity on the example of C03 (13 fields of all shapes, unknown bytes, a group list):
+   field 8 is an explicit-presence bytes member of a oneof holding the empty string (its
+   default) and is populated and encoded; field 9 (the other member) and field 2's siblings are
+   not; field 4 holds the zero 0 inside a list (lists are not subject to the zero rule) *)
+Example C11_codec_nonvacuous :
+  msg_valid false ex_schema 3 0 ex_msg = true /\ pc_groups_scan ex_schema 0 ex_msg = true /\
+  pc_has ex_schema 0 ex_msg 8 = true /\ pc_has ex_schema 0 ex_msg 9 = false /\
+  map fst (pc_wire ex_schema 0 ex_msg) = [100; 1; 2; 3; 4; 4; 5; 5; 6; 7; 7; 10; 11; 12; 12; 8].
+Proof. vm_compute. repeat split; reflexivity. Qed.
+(* a stored implicit-presence zero is not canonical *)
+Example C11_codec_implicit_zero_not_canonical :
+  msg_valid false ex_schema 3 0 (VMsg [(2, [VS (SBy [])])] []) = false /\
+  msg_valid false ex_schema 3 0 (VMsg [(8, [VS (SBy [])])] []) = true.
+Proof. vm_compute. split; reflexivity. Qed.
+
+(** the cardinality class that the harness of C03 derives for its schema tables
+    (common_msg.go msgFieldToken: 0 explicit, 1 implicit, 2 required, 3/4 repeated, 5 map) is the
+    class the HasPresence decision table gives: explicit-or-required iff HasPresence *)
+Theorem C11_schema_card_explicit_iff_has_presence :
+  forall a packed, valid_attr a = true -> is_repeated (fa_label a) = false ->
+  pc_card_explicit (pc_card a false packed) = has_presence a.
+Proof. exact pc_card_explicit_iff_presence. Qed.
+Print Assumptions C11_schema_card_explicit_iff_has_presence.
+Theorem C11_schema_card_implicit_iff :
+  forall a packed, valid_attr a = true ->
+  (pc_card a false packed = 1 <-> (is_repeated (fa_label a) = false /\ has_presence a = false)).
+Proof. exact pc_card_implicit_iff. Qed.
+Print Assumptions C11_schema_card_implicit_iff.
